@@ -81,9 +81,9 @@ CLAIMS = {
   "note": "Trusted: Lean kernel; axioms propext, Classical.choice, Quot.sound; the hand-written debugger model is validated against the code by differential testing of whole sessions; minimal-mode stderr only; command text parsing is C14; sessions use .orig/.fill sources (real sources: C17).",
   "ref": "DESIGN.md §4 C16"},
  "C01": {
-  "technique": "Lean 4 proof (every emitted word = bit-field ISA encoding of its resolved statement, for all statements/origins/label positions; AIR-level image theorem; one-statement token-level theorem) + three-way correspondence implementation vs model vs specification on abstract programs under random layouts",
-  "text": "Proved: emit_eq_encode_holds / emit_ok_iff_fits_holds (every statement form, every operand, the PC-relative arithmetic bridge), emitAll_eq_specWords, image_eq_spec / image_word (when assemble returns an image, word i is encode(stmt_i) at orig+i), image_depends_on_labels_only (definition/use order irrelevant), parse_numbered, backpatchAll_*, stmt_tokens_to_spec (one statement's tokens → the specification's words). PARTIAL: the text-level statements assemble_image / layout_irrelevant (render a whole abstract program under any layout ⇒ the specified image) are stated as `def … : Prop` and not proved — the lexer lemmas and the parse-loop induction over a whole program are missing; that half is carried by the correspondence: abstract programs (exhaustive operand sweeps at 7 origins, random programs with dense label graphs) are rendered under random layouts and literal spellings, and the real assembler's image is compared with the model's (from the text) and with the specification's (from the abstract program alone); two layouts of the same program must give the same image.",
-  "note": "Trusted: Lean kernel; axioms propext, Classical.choice, Quot.sound; the text→tokens half (lexer, directive expansion) is validated by differential testing and the C05 no-panic/termination theorems only; the layout generator defines which texts count as layouts of a program (I12).",
+  "technique": "Lean 4 proof (every emitted word = bit-field ISA encoding of its resolved statement, for all statements/origins/label positions; AIR-level image theorem; text-level theorem over an explicit layout space) + three-way correspondence implementation vs model vs specification on abstract programs under random layouts",
+  "text": "Proved: emit_eq_encode_holds / emit_ok_iff_fits_holds (every statement form, every operand, the PC-relative arithmetic bridge), emitAll_eq_specWords, image_eq_spec / image_word (when assemble returns an image, word i is encode(stmt_i) at orig+i), image_depends_on_labels_only (definition/use order irrelevant), parse_numbered, backpatchAll_*, stmt_tokens_to_spec (one statement's tokens → the specification's words). Text level, proved in full for a concrete layout space: assemble_image_render / layout_irrelevant_render — for every abstract program P and every layout L with Layout.ok (any non-empty mix of SPACE/TAB/LF/FF/CR/`,`/`:` and `;` comments between tokens, any letter case of mnemonics/directives/registers, every literal spelling readLit accepts, every valid label name incl. ones that begin like a hex literal or register, optional `.end` + ignored text), assemble(render L P) = Prog.image P; hence two layouts of one program give the same image (lexer lemmas lexes_*, advanceRealLoop_gap, preprocess_render, parse_tokens_image). Checked, not proved: that the harness' renderer stays inside render's range (the driver re-derives a layout from each accepted text and evaluates render L P = text ∧ L.ok P on every run). Correspondence: abstract programs (exhaustive operand sweeps at 7 origins, keyword look-alike labels, random programs with dense label graphs) rendered under random layouts; the real assembler's image is compared with the model's (from the text) and the specification's (from the abstract program alone).",
+  "note": "Trusted: Lean kernel; axioms propext, Classical.choice, Quot.sound; Layout.ok (lean/Lace/Spec/Render.lean) defines which texts count as layouts of a program (I12); programs of ≥ 65,535 words carry the side condition fullOk.",
   "ref": "DESIGN.md §4 C01"},
  "C04": {
   "technique": "Lean 4 proof (literal accepted iff its word fits the field; assemble succeeds iff every resolved statement fits; accepted words are never truncated; duplicate/undefined label and second .orig rejected) + three-way correspondence on boundary operands",
@@ -95,6 +95,16 @@ CLAIMS = {
   "text": "22 theorems in Props/C18.lean and C18Asm.lean, all proved: flag_irrelevant_text, flag_off_rejects_iff, flag_irrelevant_vm, flag_off_opD_exit1, flag_on_executes, flag_irrelevant_run (stated on the words fetched as memory is at fetch time, so self-modifying programs are covered), features_from_str_spec, flag_irrelevant_cli, flag_off_cli_rejects, flag_position_irrelevant, … Correspondence per run: 8k assembler outcome pairs (mnemonics as instruction/label/reference, any case, in comments/strings), 3k run pairs with raw 0xD words reached / not reached / stored at run time, ~280 real spawns of check/compile/run with 22 ways of writing the option, checking that the diagnostic names the feature.",
   "note": "Trusted: Lean kernel; axioms propext, Classical.choice, Quot.sound; clap's option parsing is exercised, not modelled.",
   "ref": "DESIGN.md §4 C18"},
+ "C15": {
+  "technique": "Lean 4 proof (eval of every statement form at every PC = ISA semantics with label operands as absolute addresses; refusals are no-ops; PC changes only for jumps; eval never panics and exits only as the VM would) + three-way correspondence of real debugger sessions on real assembly sources",
+  "text": "Theorems eval_eq_isa_abs (every statement the statement parser can return, every PC / machine / world / symbol table / origin: refusal patterns, AsmLine::new(pc−orig), backpatch, emit, execute = the specification execAbs in which a label denotes orig+line−1; uses exhaustive 65,536-case field lemmas for the 9/10/11-bit PC-relative fields and C02's execute_eq_isa), eval_text_eq_spec, eval_ld_label, eval_st_label, eval_pc_only_jumps_holds, refused_noop, eval_refusals_noop, eval_never_ends_session_holds. PARTIAL: that the statement parser itself never panics on arbitrary text (parseSimple_no_panic) is stated, not proved (C05's invariant covers the whole-program parser only); that half is carried by the correspondence (11 kinds of malformed eval text per run). Tied to the code by ~5.6k sessions per run on real sources with origins 0x0000–0xFDFF, labels out of reach, every instruction form, off-limits forms, GETC/IN with and without input, compared three ways (implementation, model, specification from the generator's label table).",
+  "note": "Trusted: Lean kernel; axioms propext, Classical.choice, Quot.sound; hand-written model validated by differential testing; the link value of JSR/JSRR/CALL under eval is left open by the property and recorded as what lace does (current PC); eval's diagnostic text is collapsed to <evalmsg>.",
+  "ref": "DESIGN.md §4 C15"},
+ "C17": {
+  "technique": "Lean 4 proof (statement span starts at the statement's own token; `assembly a` shows the statement that produced word a or nothing; label±offset resolves to orig+line−1+off computed in Z, for origins ≥ 0x8000 too) + three-way correspondence of `assembly`/`print`/`break`/`goto` on every address and label of real sources",
+  "text": "Proved: span_starts_at_statement_token, no_statement_no_text, statement_text, label_resolves, label_out_of_range, unknown_label, span_text_eq_statement_partial (if the spans the assembler reports equal the renderer's, the debugger shows the text the renderer wrote). PARTIAL: span_covers_operands, span_inside_source, multiword_share_span are stated as `def … : Prop` and carried by the correspondence only. Tied to the code by ~650 programs per run rendered under wild layouts (operand-less instructions after operand-ful ones, several statements per line, multi-word directives, multi-byte characters, origins ≥ 0x8000, user space ending inside the program, .break/.orig interleaved): `assembly a` for every a in [orig−2, orig+n+2] observed byte for byte, `print/assembly/break add/goto` on label±k, compared with the model (spans from the assembler model) and with the generator's own per-statement text and label table.",
+  "note": "Trusted: Lean kernel; axioms propext, Classical.choice, Quot.sound; the generator records what it wrote per statement; minimal output mode; ESC characters in statement text are not generated.",
+  "ref": "DESIGN.md §4 C17"},
 }
 
 def main():
